@@ -133,7 +133,14 @@ func TestC11_Programs(t *testing.T) {
 			}(i)
 		}
 		close(start)
-		wg.Wait()
+		if !waitOrHang(&wg, 90*time.Second) {
+			lines := make([]string, len(prog))
+			for i := range prog {
+				lines[i] = fmt.Sprintf("g%d: %v", i, prog[i])
+			}
+			saveCase("C11", "program", map[string]any{"test": "TestC11_Programs", "note": "hang", "program": lines})
+			t.Fatalf("concurrent program did not finish within 90 s: operations are stuck (deadlock)\n program:\n%s\n goroutines:\n%s", strings.Join(lines, "\n"), dumpStacks())
+		}
 		monitored, shared := 0, false
 		seenBy := map[[2]int]int{}
 		for i := range prog {
@@ -167,6 +174,29 @@ func TestC11_Programs(t *testing.T) {
 		}
 		rec.Case(shared, map[string]any{"goroutines": g, "ops_each": k, "gomaxprocs": procs, "queries": queries, "g0": fmt.Sprint(prog[0])}, "programs", fmt.Sprintf("gomaxprocs:%d", procs))
 	})
+}
+
+// waitOrHang waits for wg; if the goroutines do not finish in time the cache (or the
+// search path) is stuck: a deadlock is a violation of "behaves as if one at a time".
+func waitOrHang(wg *sync.WaitGroup, d time.Duration) bool {
+	done := make(chan struct{})
+	go func() { wg.Wait(); close(done) }()
+	select {
+	case <-done:
+		return true
+	case <-time.After(d):
+		return false
+	}
+}
+
+func dumpStacks() string {
+	buf := make([]byte, 1<<16)
+	n := runtime.Stack(buf, true)
+	out := string(buf[:n])
+	if len(out) > 6000 {
+		out = out[:6000] + "\n..."
+	}
+	return out
 }
 
 func monitorTotals2(mdb *database.MonitoredDatabase) (map[string]float64, int) {
@@ -347,7 +377,9 @@ func TestC11_LRULinearizable(t *testing.T) {
 			}(i)
 		}
 		close(start)
-		wg.Wait()
+		if !waitOrHang(&wg, 60*time.Second) {
+			t.Fatalf("LRU operations did not finish within 60 s (capacity %d, %d goroutines): the cache is stuck (deadlock)\n programs: %+v\n goroutines:\n%s", capacity, g, prog, dumpStacks())
+		}
 		res := porcupine.CheckOperationsTimeout(lruPorcModel(capacity), ops, 20*time.Second)
 		if res == porcupine.Illegal {
 			sort.Slice(ops, func(a, b int) bool { return ops[a].Call < ops[b].Call })
@@ -427,7 +459,9 @@ func TestC11_FirstUse(t *testing.T) {
 				}(i)
 			}
 			close(start)
-			wg.Wait()
+			if !waitOrHang(&wg, 60*time.Second) {
+				t.Fatalf("monitored searches on a fresh database did not finish within 60 s (deadlock)\n goroutines:\n%s", dumpStacks())
+			}
 			n := g * each
 			sum, _ := monitorTotals2(mdb)
 			if int(sum["searches_total"]) != n || int(sum["cache_hits_total"]+sum["cache_misses_total"]) != n || int(sum["query_length_count"]) != n {
